@@ -200,8 +200,24 @@ def no_grad():
     return _GradMode(False)
 
 
+class _SetGradMode(object):
+    """torch.set_grad_enabled: takes effect at the call (also when not used as a context manager); as a context
+    manager it restores the previous mode on exit"""
+
+    def __init__(self, mode):
+        self.prev = _grad_enabled[0]
+        _grad_enabled[0] = bool(mode)
+
+    def __enter__(self):
+        return None
+
+    def __exit__(self, *a):
+        _grad_enabled[0] = self.prev
+        return False
+
+
 def set_grad_enabled(mode):
-    return _GradMode(bool(mode))
+    return _SetGradMode(mode)
 
 
 # --------------------------------------------------------------------------
@@ -1380,6 +1396,11 @@ def ones_like(a, dtype=None, **kw):
         # the all-ones element of the same abstract space: a fixed vector
         return Tensor("vec", Vec.base("ones"), a._shape, dtype or a.dtype, a.vaxes)
     return Tensor("sc", Sc(1), a._shape, dtype or a.dtype)
+
+
+def full_like(a, fill_value, dtype=None, **kw):
+    from .core import to_real_expr
+    return Tensor("sc", Sc(to_real_expr(fill_value)), a._shape, dtype or a.dtype)
 
 
 def empty(*shape, dtype=None, device=None):
